@@ -30,7 +30,7 @@ Proof.
   unfold ConversionTable_convert. destruct (Nat.eqb (q_unit S q) to); [reflexivity|].
   induction rows as [|[[[f t] k] c] r IH]; cbn [iter_find_map_res first_row]; [reflexivity|].
   destruct (Nat.eqb f (q_unit S q) && Nat.eqb t to)%bool.
-  - unfold affine. cbn [fst snd]. rewrite !bind_assoc.
+  - unfold affine. cbn [fst snd]. rewrite ?bind_assoc.
     destruct (a_mul am (q_amount S q) k) as [m|]; cbn [bind]; [|reflexivity].
     destruct (a_add am m c) as [s|]; cbn [bind]; reflexivity.
   - cbn [bind]. exact IH.
